@@ -390,7 +390,39 @@ pub fn gen(ctx: &mut Ctx) {
             let obs = match same { Ok(true) => "same".to_string(), Ok(false) => "differs".to_string(), Err(e) => format!("err:{}", hexf(e.to_string().as_bytes())) };
             ctx.stat(&format!("c14.emit.{}.{}", kind, obs.split(':').next().unwrap()));
             ctx.line(&format!("js.emit {} {}", kind, hexf(jsons.as_bytes())), &obs);
+            // ... and the text itself against the model of the serialiser (applied to the value the parser model reads)
+            let root = if kind == "created" { "PublicKeyCredential<AuthenticatorAttestationResponse>" } else { "PublicKeyCredential<AuthenticatorAssertionResponse>" };
+            ctx.line(&format!("js.ser {} {}", root, hexf(jsons.as_bytes())), &hexf(jsons.as_bytes()));
         }
+    }
+    // ---- credential values built directly: every optional member present / absent, strings that need escaping
+    for i in 0..(if ctx.thorough { 600 } else { 80 }) {
+        use webauthn::*;
+        let odd = ["", "plain", "q\"uote", "back\\slash", "tab\tnew\nline", "\u{1}\u{1f}\u{7f}", "n\u{e9}\u{20ac}\u{1f600}", "a/b<c>&d"];
+        let id = if i % 3 == 0 { odd[(i / 3) % odd.len()].to_string() } else { b64u(&ctx.rng.bytes_in(0, 40)) };
+        let att = match ctx.rng.below(3) { 0 => None, 1 => Some(AuthenticatorAttachment::Platform), _ => Some(AuthenticatorAttachment::CrossPlatform) };
+        let ext = AuthenticationExtensionsClientOutputs {
+            cred_props: match ctx.rng.below(3) { 0 => None, 1 => Some(CredentialPropertiesOutput { discoverable: None }), _ => Some(CredentialPropertiesOutput { discoverable: Some(ctx.rng.bool()) }) },
+            prf: match ctx.rng.below(4) { 0 => None, 1 => Some(AuthenticationExtensionsPrfOutputs { enabled: None, results: None }),
+                2 => Some(AuthenticationExtensionsPrfOutputs { enabled: Some(ctx.rng.bool()), results: None }),
+                _ => Some(AuthenticationExtensionsPrfOutputs { enabled: if ctx.rng.bool() { Some(true) } else { None }, results: Some(AuthenticationExtensionsPrfValues { first: ctx.rng.bytes_in(0, 33).into(), second: if ctx.rng.bool() { Some(ctx.rng.bytes_in(0, 33).into()) } else { None } }) }) } };
+        let (root, text) = if i % 2 == 0 {
+            let tr = match ctx.rng.below(4) { 0 => None, 1 => Some(vec![]), 2 => Some(vec![AuthenticatorTransport::Internal]), _ => Some(vec![AuthenticatorTransport::Hybrid, AuthenticatorTransport::Usb, AuthenticatorTransport::Nfc, AuthenticatorTransport::Ble]) };
+            let c = CreatedPublicKeyCredential { id, raw_id: ctx.rng.bytes_in(0, 70).into(), ty: if ctx.rng.below(6) == 0 { PublicKeyCredentialType::Unknown } else { PublicKeyCredentialType::PublicKey },
+                response: AuthenticatorAttestationResponse { client_data_json: ctx.rng.bytes_in(0, 60).into(), authenticator_data: ctx.rng.bytes_in(0, 60).into(),
+                    public_key: if ctx.rng.bool() { Some(ctx.rng.bytes_in(0, 91).into()) } else { None },
+                    public_key_algorithm: *ctx.rng.pick(&[-7i64, -257, 0, 1, i64::MAX, i64::MIN, -65535, 123456789012]), attestation_object: ctx.rng.bytes_in(0, 60).into(), transports: tr },
+                authenticator_attachment: att, client_extension_results: ext };
+            ("PublicKeyCredential<AuthenticatorAttestationResponse>", serde_json::to_string(&c).unwrap())
+        } else {
+            let c = AuthenticatedPublicKeyCredential { id, raw_id: ctx.rng.bytes_in(0, 70).into(), ty: PublicKeyCredentialType::PublicKey,
+                response: AuthenticatorAssertionResponse { client_data_json: ctx.rng.bytes_in(0, 60).into(), authenticator_data: ctx.rng.bytes_in(0, 60).into(), signature: ctx.rng.bytes_in(0, 72).into(),
+                    user_handle: if ctx.rng.bool() { Some(ctx.rng.bytes_in(0, 64).into()) } else { None }, attestation_object: if ctx.rng.below(4) == 0 { Some(ctx.rng.bytes_in(0, 30).into()) } else { None } },
+                authenticator_attachment: att, client_extension_results: ext };
+            ("PublicKeyCredential<AuthenticatorAssertionResponse>", serde_json::to_string(&c).unwrap())
+        };
+        ctx.stat("c14.ser.built");
+        ctx.line(&format!("js.ser {} {}", root, hexf(text.as_bytes())), &hexf(text.as_bytes()));
     }
     for i in 0..(if ctx.thorough { 2000 } else { 300 }) {
         let k = if i < 70 { i } else { ctx.rng.below(300) as usize };
